@@ -95,6 +95,9 @@ CHECKS = {
  'C25': dict(cat='proof', tech='deductive: typestate postconditions over a ghost notification log and the set of started/cancelled reconnection handlers on the real Cluster.on_up/_on_up_future_completed/on_down/_start_reconnector/_cleanup_failed_on_up_handling/on_remove/signal_connection_failure and pool._ReconnectionHandler.start/run, _HostReconnectionHandler, Host.get_and_set_reconnection_handler',
              text='Each event handler is verified from an arbitrary host state satisfying the series invariant (at most one started, uncancelled handler = the registered one) and re-establishes it; event histories follow by composition. Sessions/policies/listeners are notification sinks; up to 2 sessions with every pool outcome and completion order.',
              ref='DESIGN.md §4 C25'),
+ 'C21': dict(cat='proof', tech='deductive: representation invariant and abstract-view (LIVE set) postconditions on the real RoundRobinPolicy, DCAwareRoundRobinPolicy, WhiteListRoundRobinPolicy, HostFilterPolicy, DefaultLoadBalancingPolicy methods, checked from every policy state over a small host universe with interference injected at lock acquisition',
+             text='Every operation is verified from every state over a universe of 5 hosts / 3 datacenter keys (thorough 6/4) for all constructor parameters; event sequences follow by composition over the LIVE view. itertools functions run natively (E-ITER); random start positions enumerated.',
+             ref='DESIGN.md §4 C21'),
 }
 
 NA_REASON = {}
